@@ -211,5 +211,6 @@ func init() {
 			run.Sample(map[string]any{"function": s.Func, "paths": r.Paths, "feasible": r.Feasible, "classes": r.ClassCount})
 		}
 		arithmeticFoundations(c)
+		groupFoundations(c, true)
 	}
 }
